@@ -285,6 +285,18 @@ Definition f_has_contradiction (k : fkb) (registered : list nat) (s : fstate) : 
 Definition row_closs (al : Q) (r : row) : Q := if is_contra al (rcur r) then lo (rcur r) - hi (rcur r) else 0.
 Definition f_contradiction_loss (k : fkb) (registered : list nat) (s : fstate) : Q :=
   qsum (map (fun i => qsum (map (row_closs (falpha (getf k i))) (ftab s i))) registered).
+(* formula.py:_supervised_loss of a first-order formula: torch MSELoss (the MEAN over rows x 2 entries) between the rows of
+   the labelled groundings that are present in the table and their labels; None when no labelled grounding is present *)
+Definition fsq (x : Q) : Q := x * x.
+Definition f_labelled (s : fstate) (i : nat) (labs : list (gnd * bnd)) : list (gnd * bnd) :=
+  filter (fun gb => tmem (ftab s i) (fst gb)) labs.
+Definition f_sse (s : fstate) (i : nat) (labs : list (gnd * bnd)) : Q :=
+  qsum (map (fun gb => fsq (lo (fget s i (fst gb)) - lo (snd gb)) + fsq (hi (fget s i (fst gb)) - hi (snd gb))) (f_labelled s i labs)).
+Definition f_supervised_loss (s : fstate) (i : nat) (labs : list (gnd * bnd)) : option Q :=
+  match f_labelled s i labs with
+  | [] => None
+  | L => Some (f_sse s i labs / (2 * inject_Z (Z.of_nat (length L))))
+  end.
 Definition f_reset_bounds (registered : list nat) (s : fstate) : fstate :=
   fold_left (fun st i => set_tab st i (t_reset (ftab st i))) registered s.
 Definition f_flush (registered : list nat) (s : fstate) : fstate :=
